@@ -97,7 +97,11 @@ func runC06(ctx *core.Ctx, idx int) *core.Result {
 		impPairs := [][2]string{{"\"example.com/zz/absent\"", ""}, {"\"example.com/zz\"", "\"example.com/zz/v2\""}, {"\"example.com/zz/v2\"", "\"example.com/zz\""},
 			{"zz \"example.com/zz\"", "\"example.com/zz\""}, {"\"example.com/zz\"", "zz \"example.com/zz\""}, {"\"example.com/zz\"", "_ \"example.com/zz\""}}
 		ip := impPairs[r.Intn(len(impPairs))]
-		switch r.Intn(3) {
+		switch r.Intn(4) {
+		case 3:
+			// two import lines: the file has the first one and nothing of the second path
+			patches = append(patches, "# guarded\n@@\nvar x expression\n@@\n import \"example.com/zz\"\n import \"example.com/zz/second\"\n\n-bump(x)\n+bump(x + 1)\n")
+			guardFileImp = "\"example.com/zz\""
 		case 0:
 			patches = append(patches, "# guarded\n@@\nvar x expression\n@@\n package "+pp[0]+"\n\n-bump(x)\n+bump(x + 1)\n")
 			guardFilePkg = pp[1]
@@ -199,6 +203,12 @@ func runC06(ctx *core.Ctx, idx int) *core.Result {
 	var names []string
 	for _, f := range files {
 		os.WriteFile(filepath.Join(dir, "src", f.name), []byte(f.src), 0o644)
+		if !f.matched && !f.failing && r.Intn(5) == 0 {
+			// a read-only file (module cache, Perforce-style checkout) in which nothing matches is as untouched and
+			// as silent as any other
+			os.Chmod(filepath.Join(dir, "src", f.name), 0o444)
+			res.Ob("read-only-unmatched-files", 1)
+		}
 		names = append(names, "src/"+f.name)
 	}
 	r.Shuffle(len(names), func(i, j int) { names[i], names[j] = names[j], names[i] })
